@@ -94,7 +94,8 @@ def judge(ctx, programs, families, compiler="clang++"):
             return i, rc == 0, (m.group(1)[:160] if m else "")
         with concurrent.futures.ThreadPoolExecutor(max_workers=16) as ex:
             for i, ok, diag in ex.map(one, range(len(programs))):
-                programs[i].verdict[fam] = ("Plain", "void") if ok else None
+                # an accepted conversion context let the value reach a plain object of type [sink]; other statement forms yield nothing
+                programs[i].verdict[fam] = (("Plain", programs[i].sink) if isinstance(programs[i].sink, str) else ("Plain", "void")) if ok else None
                 programs[i].diag[fam] = diag
         # phase 2
         acc = [i for i, p in enumerate(programs) if p.verdict[fam] is not None and p.expr is not None]
